@@ -236,6 +236,9 @@ def main(a):
                 rnd.shuffle(perms)
                 perms = [tuple(range(len(ms)))] + [p for p in perms if p != tuple(range(len(ms)))][:nperm - 1]
                 cases.append(dict(kind="permdiff", modules=ms, flags=flags, envseeds=[rnd.randrange(1, 1 << 30)], perms=perms))
+            if len(ms) > 1 and all(m.startswith("verif:") for m in ms):
+                # the members of a corpus multi-file set also go through the print / re-parse / print cycle, one by one (-E needs no imports)
+                for m in ms: cases.append(dict(kind="fixpoint", modules=[m], flags=[]))
             if len(ms) == 1 and os.path.basename(ms[0]) not in OLD_SYNTAX:
                 generated = ms[0].startswith("verif:") or ms[0].startswith("gen:")
                 cases.append(dict(kind="samecode" if generated else "fixpoint", modules=ms, flags=flags))
